@@ -31,6 +31,8 @@ func init() {
 			"C35.R7 like-with-like: in-memory Info dictionary keys are accessed as they are, not name-encoded",
 			"C35.R8 MPT: a name-tree node's own dictionary is deep-deleted only after its Kids entry was taken out",
 			"C35.R9 like-with-like: the bytes of a hex string never reach Unescape (names are written as hex strings of raw bytes)",
+			"C35.R10 flow: SetViewerPreferences populates the document's record from the caller's values, not the other way round",
+			"C35.R11 independence: the name tree root is (re)bound in the Names dictionary whatever the dictionary already holds",
 			"C35.R4 shape: the name-tree writer does not deepen a path by splitting a leaf in place (the reader refuses deep trees) — violated on the tree, known finding",
 		},
 		Assumptions: []string{"the parser decodes names (model.parseName calls types.DecodeName); listing reads the fields validation fills"},
@@ -57,6 +59,10 @@ func runC35(c *Ctx) {
 	checkNameTreeNodeDeletion(c)
 	r.MinInst["C35.R9"] = 3
 	checkHexBytesNotUnescaped(c, "C35.R9")
+	r.MinInst["C35.R10"] = 1
+	checkViewerPrefMergeDirection(c)
+	r.MinInst["C35.R11"] = 1
+	checkNameTreeRootRebound(c)
 	files := []string{"pkg/pdfcpu/validate/info.go", "pkg/pdfcpu/property.go", "pkg/pdfcpu/keyword.go"}
 	inFiles := func(fn *ssa.Function) bool {
 		f := p.File(fn.Pos())
@@ -653,5 +659,110 @@ func checkHexBytesNotUnescaped(c *Ctx, rule string) {
 	}
 	if readers == 0 {
 		r.Bad(rule, "pkg/pdfcpu/types", "anchor", "", "UNRESOLVED-ANCHOR: no caller of HexLiteral.Bytes found")
+	}
+}
+
+// R10: setting viewer preferences merges the NEW values into what the document has: in api.SetViewerPreferences the
+// receiver of ViewerPreferences.Populate is the context's record and the argument is the caller's — Populate copies its
+// argument over its receiver, so with the roles swapped a preference that is already present can never be changed.
+func checkViewerPrefMergeDirection(c *Ctx) {
+	p, r := c.P, c.R
+	const fid = "pkg/api.SetViewerPreferences"
+	fn := p.Func(fid)
+	if fn == nil {
+		r.Bad("C35.R10", fid, "anchor", "", "UNRESOLVED-ANCHOR")
+		return
+	}
+	n := 0
+	eachInstr(fn, func(_ *ssa.BasicBlock, _ int, i ssa.Instruction) {
+		call, ok := i.(*ssa.Call)
+		if !ok {
+			return
+		}
+		if f := staticCallee(call); f == nil || f.Name() != "Populate" || len(call.Call.Args) != 2 {
+			return
+		}
+		n++
+		fromCtx := func(v ssa.Value) bool { return strings.Contains(accessPath(v), "ViewerPref") }
+		if fromCtx(call.Call.Args[0]) && !fromCtx(call.Call.Args[1]) {
+			r.OK("C35.R10", fid, "merge direction", p.Pos(call.Pos()), "the document's record is populated from the caller's values", true)
+		} else {
+			r.Bad("C35.R10", fid, "merge direction", p.Pos(call.Pos()), "Populate copies its argument over its receiver; here the receiver is not the document's record (or the argument is): values already in the document override the new ones, so a preference that is present cannot be changed although the call reports success")
+		}
+	})
+	if n == 0 {
+		r.Bad("C35.R10", fid, "merge direction", p.Pos(fn.Pos()), "UNDECIDED: SetViewerPreferences does not call Populate")
+	}
+}
+
+// R11: when the name trees are bound for writing, the root node's dictionary is stored into the catalog's Names
+// dictionary UNCONDITIONALLY: a removal may have collapsed the tree into another node (the root dictionary changes
+// identity), so "keep the existing entry" leaves the Names entry pointing at the old, now empty root — the attachments
+// that remain are not written. In bindNameTreeNodeDict the Update of the Names entry with the node's dictionary is not
+// control-dependent on a lookup of that entry.
+func checkNameTreeRootRebound(c *Ctx) {
+	p, r := c.P, c.R
+	var fn *ssa.Function
+	for _, f := range p.Funcs {
+		if isSubject(f) && f.Name() == "bindNameTreeNodeDict" {
+			fn = f
+		}
+	}
+	if fn == nil {
+		r.Bad("C35.R11", "pkg/pdfcpu/model.bindNameTreeNodeDict", "anchor", "", "UNRESOLVED-ANCHOR")
+		return
+	}
+	n := 0
+	eachInstr(fn, func(b *ssa.BasicBlock, _ int, i ssa.Instruction) {
+		call, ok := i.(*ssa.Call)
+		if !ok {
+			return
+		}
+		f := staticCallee(call)
+		if f == nil || f.Name() != "Update" || len(call.Call.Args) != 3 {
+			return
+		}
+		if !strings.HasSuffix(fieldPath(call.Call.Args[2]), "D") && !strings.Contains(exprName(call.Call.Args[2]), "D") {
+			// value is not a node dictionary
+		}
+		n++
+		// control dependence on a Find/lookup of the same dictionary
+		dependent := false
+		for _, x := range fn.Blocks {
+			if len(x.Instrs) == 0 {
+				continue
+			}
+			ifi, ok := x.Instrs[len(x.Instrs)-1].(*ssa.If)
+			if !ok {
+				continue
+			}
+			if edgeDominates(Edge{x, 0}, b) == edgeDominates(Edge{x, 1}, b) {
+				continue
+			}
+			for _, l := range valueLeaves(ifi.Cond) {
+				v := l
+				if u, ok := v.(*ssa.UnOp); ok {
+					v = u.X
+				}
+				if ex, ok := v.(*ssa.Extract); ok {
+					if cl, ok := ex.Tuple.(*ssa.Call); ok {
+						if g := staticCallee(cl); g != nil && (g.Name() == "Find" || strings.HasSuffix(g.Name(), "Entry")) && len(cl.Call.Args) > 0 && cl.Call.Args[0] == call.Call.Args[0] {
+							dependent = true
+						}
+					}
+					if _, ok := ex.Tuple.(*ssa.Lookup); ok {
+						dependent = true
+					}
+				}
+			}
+		}
+		if dependent {
+			r.Bad("C35.R11", FuncID(fn), fmt.Sprintf("Names entry rebound#%d", n), p.Pos(call.Pos()), "the tree root is stored into the Names dictionary only when the entry is missing: after a removal collapsed the tree into another node the entry keeps pointing at the old, empty root, and the remaining attachments are written nowhere (listing returns nothing although the removal reported success)")
+		} else {
+			r.OK("C35.R11", FuncID(fn), fmt.Sprintf("Names entry rebound#%d", n), p.Pos(call.Pos()), "stored whatever the Names dictionary holds", true)
+		}
+	})
+	if n == 0 {
+		r.Bad("C35.R11", FuncID(fn), "Names entry rebound", p.Pos(fn.Pos()), "UNDECIDED: no Update of the Names dictionary in bindNameTreeNodeDict")
 	}
 }
